@@ -172,6 +172,12 @@ DoRename(c, st) ==
   ELSE IF c.nx /\ Has(st, c.k2) THEN Res(RInt(0), st)
   ELSE Res(IF c.nx THEN RInt(1) ELSE OK, Put(Drop(st, {c.k}), c.k2, st[c.k]))            \* [doc] value and TTL move; the target is overwritten
 DoDbSize(c, st) == Res(RInt(Cardinality(DOMAIN st)), st)
+(* EXPIRETIME / PEXPIRETIME: the deadline as absolute Unix time = start epoch of the node (c.e, ms) + deadline *)
+(* on the virtual clock; seconds are rounded to the nearest; -1 without a deadline, -2 without the key       *)
+DoExpireTime(c, st) ==
+  IF ~Has(st, c.k) THEN Res(RInt(-2), st)
+  ELSE IF st[c.k].exp = -1 THEN Res(RInt(-1), st)
+  ELSE LET abs == c.e + st[c.k].exp IN Res(RInt(IF c.ms THEN abs ELSE (abs + 500) \div 1000), st)
 
 (* KEYS pattern: Redis glob over the key bytes.  * any run, ? one byte, [..] class with ^ negation, a-z   *)
 (* ranges and \x escapes, \x the byte x itself.  c.pat = pattern bytes, c.kb = <<key, bytes>> pairs for   *)
@@ -392,7 +398,7 @@ DoLive(c, st, now) ==
     [] c.op = "PTTL" -> DoPttl(c, st, now)     [] c.op = "TTL" -> DoTtl(c, st, now)
     [] c.op = "PERSIST" -> DoPersist(c, st)    [] c.op = "RENAME" -> DoRename(c, st)
     [] c.op = "DBSIZE" -> DoDbSize(c, st)      [] c.op = "FLUSHALL" -> DoFlush(c, st)
-    [] c.op = "KEYS" -> DoKeys(c, st)
+    [] c.op = "KEYS" -> DoKeys(c, st)          [] c.op = "EXPIRETIME" -> DoExpireTime(c, st)
     [] c.op = "PUSH" -> DoPush(c, st)          [] c.op = "POP" -> DoPop(c, st)
     [] c.op = "LLEN" -> DoLLen(c, st)          [] c.op = "LINDEX" -> DoLIndex(c, st)
     [] c.op = "LRANGE" -> DoLRange(c, st)      [] c.op = "LSET" -> DoLSet(c, st)
@@ -439,7 +445,7 @@ DevAlts(c, st, now) ==
   THEN {[id |-> "getset_keeps_ttl", res |-> Res(RBulk(live[c.k].v), Put(live, c.k, Entry("string", c.v, live[c.k].exp)))]}
   ELSE {}
 
-ReadOnlyOps == {"KEYS", "GET", "STRLEN", "MGET", "GETRANGE", "EXISTS", "TYPE", "PTTL", "TTL", "DBSIZE", "LLEN", "LINDEX", "LRANGE",
+ReadOnlyOps == {"KEYS", "EXPIRETIME", "GET", "STRLEN", "MGET", "GETRANGE", "EXISTS", "TYPE", "PTTL", "TTL", "DBSIZE", "LLEN", "LINDEX", "LRANGE",
                 "SISMEMBER", "SCARD", "SMEMBERS", "HGET", "HEXISTS", "HLEN", "HGETALL", "HKEYS", "HVALS",
                 "ZSCORE", "ZCARD", "ZRANK", "ZRANGE", "ZCOUNT", "ZRANGEBYSCORE", "PING", "ECHO"}
 
